@@ -35,7 +35,7 @@ def one(patch: Path):
 def main():
     patches = []
     for a in sys.argv[1:]:
-        p = Path(a)
+        p = Path(a).resolve()
         patches += sorted(p.glob("*.diff")) if p.is_dir() else [p]
     bad = 0
     with ThreadPoolExecutor(max_workers=8) as ex:
